@@ -602,13 +602,18 @@ func fieldsScenario(s *Sim, params map[string]string) {
 			return frame
 		}
 		// unknown tagged fields at the top level of the body
-		for i, k := 0, t.Intn("work", 3); i < k; i++ {
+		for i, k := 0, 1+t.Intn("work", 2); i < k; i++ {
 			unknownTags[uint32(1000+t.Intn("work", 50000))] = genFieldBytes(t)
 		}
-		if len(unknownTags) == 0 {
-			return frame
+		opts := &rc.ResponseOpts{UnknownTags: unknownTags}
+		if t.Intn("work", 2) == 0 {
+			// ... and in every nested structure, where more fields follow
+			opts.NestedUnknownTags = map[uint32][]byte{uint32(2000 + t.Intn("work", 60000)): genFieldBytes(t)}
+			if t.Intn("work", 2) == 0 {
+				opts.NestedUnknownTags[uint32(100+t.Intn("work", 1000))] = bytes.Repeat([]byte{0x7f}, Pick(t, "work", 0, 1, 127, 128, 129, 300))
+			}
 		}
-		f2, _, err := rc.EncodeResponse(r.Hdr.APIKey, r.Hdr.APIVersion, r.Hdr.CorrelationID, r.Resp, &rc.ResponseOpts{UnknownTags: unknownTags})
+		f2, _, err := rc.EncodeResponse(r.Hdr.APIKey, r.Hdr.APIVersion, r.Hdr.CorrelationID, r.Resp, opts)
 		if err != nil {
 			s.Fail("SIM", "fields-encode", "re-encoding with unknown tags: %v", err)
 			return frame
